@@ -229,7 +229,7 @@ int main(int argc, char** argv) {
   else harness_fail("unknown mode " + mode);
   LOG.count("steps", CNT.steps); LOG.count("snapshots_compared", CNT.snapshots); LOG.count("evaluations", CNT.evals); LOG.count("repeated_evaluations", CNT.repeats);
   LOG.count("fatal_paths_observed", CNT.fatal_ok); LOG.count("twin_reproductions", CNT.twin); LOG.count("checkpoints", CNT.checkpoints); LOG.count("listings_parsed", CNT.listed);
-  LOG.count("display_param_parsed", CNT.display);
+  LOG.count("display_param_parsed", CNT.display); LOG.count("radiation_evaluations_compared_with_the_sum_over_the_vectors_last_set", CNT.radiation_refs);
   flush_viol_counts();
   end_ok();
   return 0;
